@@ -192,12 +192,7 @@ def check_consumers(model, rep):
 
 # elementary transfer functions: class -> accepted normalised return texts
 ELEMENTARY = {
-    'Negative': ['(-arg.hi, -arg.lo)'],
-    'Add': ['(builtins.sum(lowers), builtins.sum(uppers))', '(sum(lowers), sum(uppers))'],
-    'Minimum': ['(min(x.lo, y.lo), min(x.hi, y.hi))', '(min(y.lo, x.lo), min(y.hi, x.hi))'],
-    'Maximum': ['(max(x.lo, y.lo), max(x.hi, y.hi))', '(max(y.lo, x.lo), max(y.hi, x.hi))'],
     '_LoopIndex': ['(0, max(0, length.hi - 1))'],
-    'Sign': ['(int(numpy.sign(func.lo)), int(numpy.sign(func.hi)))'],
     # index-producing nodes (NumPy semantics): insertion points of searchsorted lie in [0, n]; positions of argsort/nonzero/arange in [0, n-1]
     'SearchSorted': ['(0, array_shape_0.hi)'],
     'ArgSort': ['(0, max(0, array_shape_m1.hi - 1))'],
@@ -297,8 +292,6 @@ def check_transfer(model, rep):
             n += 1
             got = [norm_term(r.value, al) for r in rets]
             ok = len(got) == 1 and got[0] in ELEMENTARY[c.name]
-            if c.name == 'Add':     # the range of a sum is (sum of the lower bounds, sum of the upper bounds) over all terms, however it is spelled
-                ok = sum_over_terms(f.node) == (('sum', 0), ('sum', 1))
             rep.ob('R06.4', f.key, f.where(), ok, f'{c.name} range = {got[0]} (interval arithmetic)' if ok else
                    f'{c.name}._intbounds_impl returns {got}, interval arithmetic gives {ELEMENTARY[c.name][0]}: the announced range no longer contains all values', statement='elementary-transfer')
         elif len(rets) == 1 and isinstance(rets[0].value, ast.Attribute) and rets[0].value.attr == '_intbounds' and src(rets[0].value.value).startswith('self.'):
@@ -306,7 +299,7 @@ def check_transfer(model, rep):
             ok = c.name in PASS_THROUGH_OK and PASS_THROUGH_OK[c.name] is not None
             rep.ob('R06.4', f.key, f.where(), ok, f'{c.name} passes the range of its operand through ({PASS_THROUGH_OK.get(c.name)})' if ok else
                    f'{c.name} passes the range of its operand through, but it is not a pure selection/rearrangement of that operand\'s values', statement='pass-through-transfer')
-    if n < 12:
+    if n < 8:
         raise AnalysisError(f'only {n} elementary transfer functions recognised')
     # Sum: the four products
     f = model.func('evaluable:Sum._intbounds_impl')
@@ -357,6 +350,109 @@ def check_inflate_transfer(model, rep):
     rep.ob('R06.4', f.key, f.where(), ok, 'Inflate scales the range of its operand by the number of dof map entries unless the dof map is known to be free of repetitions' if ok else
            f'Inflate._intbounds_impl returns {[norm_term(r.value, al) for r in rets]}: entries that share a dof are summed, so the announced range must be scaled by the number of entries of the dof map '
            'unless it is known to be free of repetitions - otherwise Mod/InRange/NormDim shortcuts drop operations for values outside the announced range', statement='inflate-transfer')
+
+
+def check_einsum_transfer(model, rep):
+    """R06.4 (Einsum): a contraction sums as many terms as the summed axes are long; for axes of variable length the count lies between the product of the
+    LOWER and the product of the UPPER bounds of those lengths.  The transfer function must read both bounds of the summed lengths - using the upper bound for
+    both ends announces e.g. [12, 12] for a value that is 4, 8 or 12."""
+    import itertools
+    from sa.miniexec import MiniExec, Sym, Returned, AssertionFailed
+    from sa.algebra import Unsupported
+    f = model.func('evaluable:Einsum._intbounds_impl')
+
+    def product(seq, start=1):
+        r = start
+        for x in seq:
+            r = r * x
+        return r
+    bad = None
+    n = 0
+    # interpreted (sa.miniexec) for contractions sum_k a_k b_k over an axis whose length has the bounds (nlo, nhi) and operands with the given ranges;
+    # the announced range must contain every value n*p with nlo <= n <= nhi and p a product of values of the operands
+    try:
+        for (nlo, nhi), ra, rb in itertools.product(((1, 3), (0, 2), (2, 2), (0, 0)), ((2, 2), (-2, -1), (-1, 2), (0, 3)), ((1, 1), (-3, 2))):
+            length = Sym(_intbounds=(nlo, nhi))
+            args = (Sym(shape=(length,), _intbounds=ra), Sym(shape=(length,), _intbounds=rb))
+            ex = MiniExec({'self': Sym(args=args, args_idx=((0,), (0,)), out_idx=()), 'util': Sym(product=product), 'min': min, 'max': max})
+            try:
+                ex.run(f.node.body)
+                got = None
+            except Returned as r:
+                got = tuple(r.value)
+            vals = [k * a * b for k in range(nlo, nhi + 1) for a in range(ra[0], ra[1] + 1) for b in range(rb[0], rb[1] + 1)]
+            # a sum of k products: between k*min(p) and k*max(p)
+            ps = [a * b for a in range(ra[0], ra[1] + 1) for b in range(rb[0], rb[1] + 1)]
+            true_lo = min(k * min(ps) for k in range(nlo, nhi + 1))
+            true_hi = max(k * max(ps) for k in range(nlo, nhi + 1))
+            n += 1
+            if got is None or not (got[0] <= true_lo and true_hi <= got[1]):
+                bad = bad or ((nlo, nhi), ra, rb, got, (true_lo, true_hi))
+    except (Unsupported, AssertionFailed) as e:
+        raise AnalysisError(f'Einsum._intbounds_impl uses a construct the evaluator does not know: {e}')
+    ok = bad is None and n >= 30
+    rep.ob('R06.4', f.key, f.where(), ok, 'the number of summed terms enters the range of an Einsum with its lower and its upper bound' if ok else
+           (f'Einsum._intbounds_impl announces {bad[3]} for a contraction over an axis of length {bad[0][0]}..{bad[0][1]} of operands in {list(bad[1])} and {list(bad[2])}; the values lie in {list(bad[4])}: '
+            'the announced range excludes values the node can take' if bad else 'Einsum._intbounds_impl could not be interpreted'), statement='einsum-transfer')
+
+
+def _sign(v):
+    return (v > 0) - (v < 0)
+
+
+# what the node computes for integer operands (value semantics, from the class docstrings / NumPy), and which operand combinations are valid inputs
+TRANSFER_SPECS = {
+    'Negative': (('arg',), lambda a: -a, None),
+    'Absolute': (('arg',), abs, None),
+    'Sign': (('func',), _sign, None),
+    'Minimum': (('x', 'y'), min, None),
+    'Maximum': (('x', 'y'), max, None),
+    'Add': ('_terms', lambda a, b: a + b, None),
+    'Multiply': ('funcs', lambda a, b: a * b, None),
+    'Mod': (('dividend', 'divisor'), lambda a, b: a % b, lambda a, b: b > 0),
+    'FloorDivide': (('dividend', 'divisor'), lambda a, b: a // b, lambda a, b: b != 0),
+    'NormDim': (('length', 'index'), lambda n, i: i if i >= 0 else i + n, lambda n, i: n >= 1 and -n <= i < n),
+}
+SMALL_RANGES = ((0, 0), (1, 1), (-1, -1), (0, 2), (-2, 3), (2, 4), (-3, -1), (1, 3))
+
+
+def check_transfer_sound(model, rep, rule='R06.4'):
+    """R06.4 (soundness by interpretation): for the nodes whose integer semantics is a plain function of their operands, `_intbounds_impl` is interpreted
+    (sa.miniexec) for every combination of small operand ranges, and the announced range must contain every value the node takes on valid operand values
+    in those ranges.  This decides soundness of the transfer function itself, however it is written."""
+    import itertools
+    from sa.miniexec import MiniExec, Sym, Returned, AssertionFailed
+    from sa.algebra import Unsupported
+    inf = float('inf')
+    numpy_ = Sym(sign=_sign)
+    for cname, (fields, sem, valid) in TRANSFER_SPECS.items():
+        f = model.functions.get(f'evaluable:{cname}._intbounds_impl')
+        if f is None:
+            raise AnalysisError(f'{cname}._intbounds_impl not found')
+        arity = len(fields) if isinstance(fields, tuple) else 2
+        bad, n = None, 0
+        try:
+            for ranges in itertools.product(SMALL_RANGES, repeat=arity):
+                vals = [sem(*v) for v in itertools.product(*[range(lo, hi + 1) for lo, hi in ranges]) if valid is None or valid(*v)]
+                if not vals:
+                    continue
+                operands = [Sym(_intbounds=r, dtype=int) for r in ranges]
+                attrs = dict(zip(fields, operands)) if isinstance(fields, tuple) else {fields: tuple(operands)}
+                base = Sym(_intbounds_impl=lambda: (-inf, inf))
+                ex = MiniExec({'self': Sym(**attrs), 'numpy': numpy_, 'min': min, 'max': max, 'super': (lambda base=base: base), 'int': int, 'bool': bool})
+                try:
+                    ex.run(f.node.body)
+                    got = None
+                except Returned as r:
+                    got = tuple(r.value)
+                n += 1
+                if got is None or len(got) != 2 or not (got[0] <= min(vals) and max(vals) <= got[1]):
+                    bad = bad or (ranges, got, (min(vals), max(vals)))
+        except (Unsupported, AssertionFailed, TypeError, ValueError, ZeroDivisionError) as e:
+            raise AnalysisError(f'{cname}._intbounds_impl uses a construct the evaluator does not know: {type(e).__name__}: {e}')
+        rep.ob(rule, f.key, f.where(), bad is None and n > 0, f'{cname}: the announced range contains every value for all {n} combinations of small operand ranges (interpreted)' if bad is None and n > 0 else
+               (f'{cname}._intbounds_impl announces {bad[1]} for operands in {[list(r) for r in bad[0]]}; the node takes values in {list(bad[2])}: a value outside the announced range lets range-based rewrites drop or alter operations'
+                if bad else f'{cname}._intbounds_impl could not be interpreted'), statement='transfer-sound')
 
 
 def check_constancy(model, rep):
@@ -605,6 +701,8 @@ def run(model, rep, tier):
     check_consumers(model, rep)
     check_transfer(model, rep)
     check_inflate_transfer(model, rep)
+    check_einsum_transfer(model, rep)
+    check_transfer_sound(model, rep)
     check_constancy(model, rep)
     from rules.c13 import check_announced
     from rules.c03 import _Rename
